@@ -630,7 +630,8 @@ Fixpoint update_task_state_fuel (fuel : nat) (t : string) (route : nat) (evt : e
                    merge_dicts (dset "__current_task" (current_task_json (r_id r) (r_route r) (Some task_result)) in_ctx)
                                (state_ctx w) in
                  retry_task <- try_catch
-                                 (if status_in (wstatus w) ACTIVE_STATUSES
+                                 (if negb (status_eqb new_status old_status)
+                                     && status_in (wstatus w) ACTIVE_STATUSES
                                      && tbl_transition_valid task_table new_status S_RETRYING
                                   then evaluate_task_retry r current_ctx else ret false)
                                  (fun x => log_error x (Some t) (Some route) None ;;;
